@@ -37,7 +37,7 @@ META = {
                     "np.isin/np.all have numpy semantics", "an explicit raise is the only way the subset test rejects input"],
     "technique": "if/elif arm extraction + CFG dominance + sibling table comparison",
 }
-MIN_INSTANCES = {"R1": 13, "R2": 18, "R3": 6, "R4": 4, "R5": 4}
+MIN_INSTANCES = {"R1": 13, "R2": 18, "R3": 6, "R4": 4, "R5": 4, "R6": 1}
 
 
 # ----------------------------------------------------------------------------------------
@@ -167,6 +167,7 @@ def run(ctx: Ctx) -> None:
         conv[cname] = _r2_subset_check(ctx, mod, cname, fname, armfn, root, bf_attr)
         tables[cname] = writes
     _r5_siblings(ctx, mod, tables, conv)
+    _r6_other_mutators(ctx, mod)
     if ctx.tier == "thorough":
         _notes(ctx, mod)
 
@@ -448,6 +449,32 @@ def _r5_siblings(ctx: Ctx, mod, tables, conv) -> None:
 
 # ---------------- notes ---------------------------------------------------------------------------
 
+def _r6_other_mutators(ctx: Ctx, mod) -> None:
+    """R6 (added by the coordinator): every other method of the boundary-condition classes that switches a
+    flag on for an index set must switch the other two off for the same index expression (one-hot is an
+    invariant of the object, not only of the constructor).  Today: internal_to_dirichlet."""
+    n = 0
+    for cq, cls in mod.classes():
+        for name, fn in methods(cls).items():
+            if (cq, name) in SITES or name == "__init__":
+                continue
+            ws = [(_flag_store(s), s) for s in stmts_local(fn)]
+            ws = [(w, s) for w, s in ws if w is not None]
+            for w, st in ws:
+                if w[1] is not True:
+                    continue
+                n += 1
+                idx = u(w[2]) if w[2] is not None else None
+                off = {x[0] for x, _ in ws if x[1] is False and x[2] is not None and u(x[2]) == idx}
+                miss = [f for f in FLAGS if f != w[0] and f not in off]
+                ctx.check("R6", not miss, mod, f"{cq}.{name}", st,
+                          f"{name} sets {w[0]} True on `{idx}` but does not clear {miss} on the same faces: a face previously of that "
+                          f"type ends up with two condition types", construct=f"{cq}.{name}: {w[0]}[{idx}] = True without clearing {miss}",
+                          facts={"index": idx, "cleared": sorted(off)})
+    if n == 0:
+        raise AnchorError("no flag-setting mutator besides the constructors found (internal_to_dirichlet expected)")
+
+
 def _notes(ctx: Ctx, mod) -> None:
     for cq, cls in mod.classes():
         for name, fn in methods(cls).items():
@@ -491,6 +518,7 @@ _V_REST = ("            if isinstance(cond, str):\n                cond = [cond]
            "                else:\n                    raise ValueError(f\"Unknown boundary condition {s}\")\n")
 
 MUTANTS = [
+    _m("revert-fix-internal-to-dirichlet-rob", "        self.is_rob[:, frac_face] = False\n", "", "R6", control=True),
     _m("revert-fix-vectorial-dir-keeps-rob",
        "                    self.is_neu[:, faces[j]] = False\n                    self.is_rob[:, faces[j]] = False\n                elif s.lower() == \"rob\":",
        "                    self.is_neu[:, faces[j]] = False\n                elif s.lower() == \"rob\":", "R3", control=True),
